@@ -29,6 +29,16 @@ def opname(kind):
     return kind[2:] if kind[:2] in ("x_", "l_") else kind
 
 
+def refname(r):
+    """Name of a reference for signatures; references held by a unit root are marked."""
+    return ("root:" if r["from"] < 0 else "") + opname(r["kind"])
+
+
+def held(r, S):
+    """The reference is held by an entry of S or by a (always converted) unit root."""
+    return r["from"] < 0 or r["from"] in S
+
+
 def write_cfg(name, consts):
     with open(os.path.join(SPEC, name + ".cfg"), "w") as f:
         f.write("INIT Init\nNEXT Next\nINVARIANT Inv\nCHECK_DEADLOCK FALSE\nCONSTANTS\n")
@@ -60,9 +70,9 @@ def judge(ctx, case, o, guilty, stats, recheck):
         stats["runs"] += 1
         must, may, req = set(x["must"]), set(x["may"]), set(x["req"])
         sub = dict(case, exp=[x])
-        inner = sorted(set(opname(r["kind"]) for r in refs if r["from"] in must))
+        inner = sorted(set(refname(r) for r in refs if held(r, must)))
         if run.get("ok") is not True:
-            if must & invalid:
+            if must & invalid or case.get("rootinvalid"):
                 stats["expected_err"] += 1
                 if not str(run.get("err", "")).startswith("Invalid"):
                     ctx.drift.append({"what": "error variant", "err": run.get("err"), "case": case["id"]})
@@ -91,11 +101,11 @@ def judge(ctx, case, o, guilty, stats, recheck):
         if run["dangling"]:
             ctx.violation("filter:dangling:%s" % "+".join(inner),
                           "output holds references to missing entries: %s" % run["dangling"], sub, run)
-        if S & invalid:
+        if S & invalid or case.get("rootinvalid"):
             ctx.violation("filter:invalid-ref-kept", "an entry with an invalid reference was converted without error", sub, run)
         missing = must - S
         if missing:
-            why = sorted(set(opname(r["kind"]) for r in refs if r["to"] in missing and r["from"] in must))
+            why = sorted(set(refname(r) for r in refs if r["to"] in missing and held(r, must)))
             parents = set(e["parent"] for e in case["entries"] if e["id"] in must)
             if missing & req:
                 why.append("required")
@@ -114,7 +124,11 @@ def judge(ctx, case, o, guilty, stats, recheck):
                           % (sorted(extra), sorted(req)), sub, run)
         if not missing and not extra and S != must:
             tags = sorted(set(e["tag"] for e in case["entries"] if e["id"] in S - must))
-            recheck.append({"case": case, "req": sorted(req), "S": sorted(S), "tags": tags, "run": run})
+            if any(r["from"] < 0 for r in refs):
+                ctx.drift.append({"what": "output larger than the closure (root-held reference present; closedness not re-validated)",
+                                  "req": sorted(req), "S": sorted(S)})
+            else:
+                recheck.append({"case": case, "req": sorted(req), "S": sorted(S), "tags": tags, "run": run})
         if run.get("diff_unf"):
             ctx.violation("filter:attrs-differ",
                           "retained entries %s differ (tag, parent or attribute list) from the unfiltered conversion"
@@ -215,11 +229,11 @@ def run(ctx):
 
     # ---------------------------------------------------------------- G
     if q:
-        runs = [dict(MaxN=4, MaxUnits=2, MaxEdges=2, MaxEdgesBig=1, Salt=ctx.seed % 97, EmitMod=2, CheckSplit="FALSE", KindN=2, FewSubsets="TRUE")]
+        runs = [dict(MaxN=4, MaxUnits=2, MaxEdges=2, MaxEdgesBig=1, Salt=ctx.seed % 97, EmitMod=2, CheckSplit="FALSE", KindN=2, FewSubsets="TRUE", RootEdges="TRUE")]
     else:
-        runs = [dict(MaxN=4, MaxUnits=2, MaxEdges=3, MaxEdgesBig=2, Salt=0, EmitMod=5, CheckSplit="TRUE", KindN=3, FewSubsets="FALSE")] + \
-               [dict(MaxN=3, MaxUnits=2, MaxEdges=3, MaxEdgesBig=3, Salt=s, EmitMod=2, CheckSplit="FALSE", KindN=0, FewSubsets="FALSE") for s in (1, 2, 3)] + \
-               [dict(MaxN=5, MaxUnits=2, MaxEdges=1, MaxEdgesBig=1, Salt=7, EmitMod=3, CheckSplit="FALSE", KindN=0, FewSubsets="FALSE")]
+        runs = [dict(MaxN=4, MaxUnits=2, MaxEdges=3, MaxEdgesBig=2, Salt=0, EmitMod=5, CheckSplit="TRUE", KindN=3, FewSubsets="FALSE", RootEdges="TRUE")] + \
+               [dict(MaxN=3, MaxUnits=2, MaxEdges=3, MaxEdgesBig=3, Salt=s, EmitMod=2, CheckSplit="FALSE", KindN=0, FewSubsets="FALSE", RootEdges="TRUE") for s in (1, 2, 3)] + \
+               [dict(MaxN=5, MaxUnits=2, MaxEdges=1, MaxEdgesBig=1, Salt=7, EmitMod=3, CheckSplit="FALSE", KindN=0, FewSubsets="FALSE", RootEdges="FALSE")]
     stats = {"runs": 0, "exact": 0, "expected_err": 0}
     decisive, dtags = set(), set()
     allk = set()
@@ -241,11 +255,11 @@ def run(ctx):
             # pass 1: which single reference kinds make a well-formed conversion fail
             for i, c in enumerate(cases):
                 o = obs.get(i)
-                if not o or o.get("build") != "ok" or c["invalid"]:
+                if not o or o.get("build") != "ok" or c["invalid"] or c.get("rootinvalid"):
                     continue
                 for x, run_ in zip(c["exp"], o["runs"]):
                     if run_.get("ok") is not True:
-                        inner = set(opname(rr["kind"]) for rr in c["refs"] if rr["from"] in set(x["must"]))
+                        inner = set(refname(rr) for rr in c["refs"] if held(rr, set(x["must"])))
                         if len(inner) == 1:
                             guilty |= inner
             for i, c in enumerate(cases):
